@@ -242,12 +242,13 @@ def run(ctx, n_quick=400, n_thorough=20000):
     ]
     n = ctx.n(n_quick, n_thorough)
     for i in range(n + len(corpus)):
-        tape = [bytes(rng.getrandbits(8) for _ in range(32)) for _ in range(6)]
         if i < len(corpus):
             file0, ops = corpus[i]
         else:
             file0 = rng.choice(initial_files(rng))
             ops = gen_history(rng, rng.randint(3, 14 if not ctx.thorough() else 24))
+        # one os.urandom draw per attempt to create the file, successful or not: never fewer entries than operations
+        tape = [bytes(rng.getrandbits(8) for _ in range(32)) for _ in range(len(ops) + 2)]
         case, obs, done = one(ctx, res, file0, tape, ops, tmp, sample=i < 3)
         batch.append((case, obs))
         reqs.append({"cmd": "kf.run", "objs": 2, "file": file0, "tape": [t.hex() for t in tape], "ops": done})
